@@ -42,6 +42,10 @@ CHECKS = {
    "bounded-exhaustive enumeration of sequences, offsets, ranges, feature lists and quality vectors against positional reference implementations",
    "Every (start,end) pair around sequences of length 0..5 (6) at offsets -2/0/3, linear and circular, dst==src and dst!=src; every length pair for Join; every list of <=2 (3) features intersecting or abutting the sequence with every orientation kind, complementing and non-complementing alphabets; every (limit-e) vector of length <=6 (7) over 5 dyadic values for Trim. Distinct letters and qualities per position, so any misplaced letter is visible; aliasing is detected by overwriting the result.",
    "linear.Seq and linear.QSeq only; Compose features at least abut the sequence; Trim accepts an empty window anywhere."),
+ "C05": (E2, "model_checking", "DESIGN.md §3 C05",
+   "breadth-first search over operation sequences (RevComp, Reverse, Clone, Set, SetOffset, Delete, Append) applied to real sequence objects of every type; snapshot relation checked after every operation, retained clones checked for independence",
+   "Every letter string of length <=3 over paired letters (and all built-in complementing alphabets on fixed words), alignment grids up to 3x4, every Multi layout of 1..3 rows with offsets 0..2 and lengths 1..3, Sets; every operation sequence of depth <=3/4 (thorough 4/5) with the reverse-complement relation (letters, qualities, strand, mirrored row coordinates), double application, and every retained clone/original compared after each later mutation.",
+   "Column-stored alignments at offset 0; single Reverse checked against its documented meaning; small sizes."),
 }
 PENDING = {}  # id -> reason, for properties not (yet) claimed
 
